@@ -100,7 +100,7 @@ pub fn run(ctx: &mut Ctx) {
         }
     }
     ctx.stratum("M-multi-alternative", false);
-    let n = ctx.tier.pick(60_000u64, 6_000_000u64);
+    let n = ctx.tier.n(60_000, 6_000_000);
     for i in 0..n {
         if ctx.take() {
             let mut r = Rng::for_case(ctx.seed, "C09-M", i);
@@ -110,7 +110,7 @@ pub fn run(ctx: &mut Ctx) {
         }
     }
     ctx.stratum("P-prerelease-and-big-bounds", false);
-    let n = ctx.tier.pick(30_000u64, 3_000_000u64);
+    let n = ctx.tier.n(30_000, 3_000_000);
     for i in 0..n {
         if ctx.take() {
             let mut r = Rng::for_case(ctx.seed, "C09-P", i);
